@@ -486,7 +486,9 @@ PROPS["C12"] = dict(
                "ALL positive sizes: the generated tables equal the specification tables (index bijection + finite table "
                "facts), the resulting map is well-formed, faces are the per-cell cycles, neighbours are glued exactly along "
                "shared sides with a free rim. Vertex positions/counts, orientation/area, descriptor equivalence, error "
-               "clauses and the 3D builder: exhaustive box of sizes, model vs implementation and extracted oracle (partial)",
+               "clauses: exhaustive box of sizes, model vs implementation and extracted oracle. 3D builder: the hex tables are "
+               "translated too and replayed against the implementation for every size of a box, and the extracted validator "
+               "grid3_spec checks hexahedra, lattice vertices and face gluing on every grid; no all-sizes proof in 3D (partial)",
     technique="translator (Rust tables -> Gallina) + Coq proof for all sizes + exhaustive-box correspondence and oracle",
     translators=True,
     families=[],
@@ -792,6 +794,13 @@ PROPS["C08"]["families"] += [
     Family("compose3", "core3", r_core3("compose", 1200, 25000, 10, ["--darts", "10"]), 50, [], pair=True),
 ]
 PROPS["C08"]["trusted"] = PROPS["C08"]["trusted"] + MAP3_TRUST[3:]
+GRID3_CLASSES = {"1": "hex grid ill-formed", "2": "dart or volume count differs from nx*ny*nz hexahedra",
+                 "3": "a volume is not a hexahedron", "4": "vertex count wrong, or a vertex off the lattice or duplicated",
+                 "5": "volumes not glued exactly on their shared faces"}
+PROPS["C12"]["families"] += [
+    Family("grid3-hex", "core3", lambda tier, seed: ["--mode", "hexq", "--darts", {"quick": "3", "thorough": "4"}[tier]], 50,
+           [(32, "grid3_spec", GRID3_CLASSES)], exhaustive=True),
+]
 PROPS["C18"]["families"] += [
     Family("core3-random", "core3", r_core3("random", 1200, 25000, 25, ["--darts", "10"]), 50, [(55, "alloc_step3", ALLOC_CLASSES)]),
 ]
